@@ -254,6 +254,8 @@ def check_media_chain(ctx, ck, rule='R-PAIR.media-chain'):
             while p_ is not None and p_ is not g.node:
                 if isinstance(p_, ast.If) and any(ch is s_ or any(ch is y for y in ast.walk(s_)) for s_ in p_.body):
                     tests.append(norm(p_.test))
+                elif isinstance(p_, ast.If) and any(ch is s_ or any(ch is y for y in ast.walk(s_)) for s_ in p_.orelse):
+                    tests.append('not (%s)' % norm(p_.test))
                 if isinstance(p_, (ast.For, ast.While)):
                     in_loop = True
                 ch, p_ = p_, parent(p_)
@@ -262,6 +264,17 @@ def check_media_chain(ctx, ck, rule='R-PAIR.media-chain'):
                    and isinstance(s_.targets[0], ast.Name) and norm(s_.value) == 'self.media'}
             for a_ in al_:
                 tests = [re.sub(r'\b%s\b' % re.escape(a_), 'self.media', t_) for t_ in tests]
+            # (locals bound once: `last = len(self.media) - 1`, `single = len(self.media) == 1`)
+            once_ = {}
+            for s_ in walk_no_nested(g.node):
+                if isinstance(s_, ast.Assign) and len(s_.targets) == 1 and isinstance(s_.targets[0], ast.Name):
+                    once_.setdefault(s_.targets[0].id, []).append(s_.value)
+            for nm_, vs_ in once_.items():
+                if len(vs_) == 1 and nm_ not in al_:
+                    vt_ = norm(vs_[0])
+                    for a_ in al_:
+                        vt_ = re.sub(r'\b%s\b' % re.escape(a_), 'self.media', vt_)
+                    tests = [re.sub(r'\b%s\b' % re.escape(nm_), '(%s)' % vt_, t_) for t_ in tests]
             recv = norm(c.func.value)
             if isinstance(c.func.value, ast.Name):
                 # (a local that names the last medium)
@@ -271,7 +284,8 @@ def check_media_chain(ctx, ck, rule='R-PAIR.media-chain'):
                     recv = norm(ds_[0])
             for a_ in al_:
                 recv = re.sub(r'\b%s\b' % re.escape(a_), 'self.media', recv)
-            single = any(re.search(r'len\(self\.media\) == 1|len\(self\.media\) < 2|len\(self\.media\) <= 1', t_) for t_ in tests)
+            single = any(re.search(r'^(?!not ).*(len\(self\.media\) == 1|len\(self\.media\) < 2|len\(self\.media\) <= 1)|'
+                                   r'^not \((len\(self\.media\) > 1|len\(self\.media\) >= 2|len\(self\.media\) != 1)\)$', t_) for t_ in tests)
             last = recv.endswith('media[-1]') or any(re.search(r'len\(self\.media\) - 1|media\[-1\]', t_) for t_ in tests)
             ok = single or last or not destructive
             ck.ob(rule, '%s|%s' % (g.qual, norm(c)), ok, g.loc(c),
